@@ -63,8 +63,12 @@ def rand_box(rng, pts, dims, style=None):
     hi = [max(p[a] for p in pts) for a in range(3)]
     style = style or rng.choice(["enclosing", "partial", "partial", "touch", "degenerate", "disjoint", "half"])
     b0, b1 = [], []
+    strip_axis, strip_at = rng.randrange(2), rng.choice(pts)
     for a in range(dims):
-        if style == "enclosing":
+        if style == "strip":
+            # a thin slab through one element, long in the other directions: on a rotated grid it picks non-adjacent rows / columns
+            x0, x1 = (strip_at[a] - 0.3, strip_at[a] + 0.3) if a == strip_axis else (lo[a] - 1, hi[a] + 1)
+        elif style == "enclosing":
             x0, x1 = lo[a] - 1, hi[a] + 1
         elif style == "disjoint":
             x0, x1 = (hi[a] + 2, hi[a] + 5) if a == 0 else (lo[a] - 1, hi[a] + 1)
@@ -431,7 +435,7 @@ def do_grid2d(case, rec, rng, ws, dims, inverse, copy):
     vals = grid_values(len(cent))
     obj.add_data({"d": {"values": vals.copy(), "association": "CELL"}})
     for _try in range(20):
-        box, style = rand_box(rng, cent, dims)
+        box, style = rand_box(rng, cent, dims, style="strip" if rotated and rng.random() < 0.4 else None)
         if not rotated or all(min(abs(p[a] - box[0][a]), abs(p[a] - box[1][a])) > 1e-6 for p in cent for a in range(dims)):
             break
     else:
